@@ -38,6 +38,7 @@ for res in sorted(glob.glob('/verif/work/seedres/*.txt')):
         old['history']=hist
         m={'property':pid,'breaks':meta.get('what_it_breaks',''),'title':meta.get('title',''),
            'needs_to_manifest':meta.get('needs_to_manifest',''),'files':meta.get('files',[]),
+           'base_commit':kv.get('base','/repo HEAD at the time of the run (see /repo git log; later fix: commits may touch the same lines)'),
            'confirmed':{'applies_to_repo_head':kv.get('applies'),'builds':kv.get('builds'),'baseline_suite_unexpected_failures':kv.get('suite_unexpected_failures'),
                         'demo_exit_on_unchanged_tree':kv.get('demo_exit_clean'),'demo_exit_with_change':kv.get('demo_exit_changed')},
            'what_was_run':'seedcheck.sh: scratch worktree of /repo HEAD, demo/run.sh on the clean tree, git apply patch.diff, go build ./... (with and without -tags verif), go test -vet=off -count=1 ./..., demo/run.sh again, then VERIF_REPO=<worktree> ./run.sh <check> quick for the checks listed',
